@@ -92,30 +92,47 @@ func derivesFromField(v ssa.Value, f *types.Var) bool {
 // accumOver: phi is an accumulate-max over the elements' clock times of a ranged slice: phi = [init, maxlike(phi, time(elem))].
 // Returns the ranged slice value and the init value.
 func (me *monoEngine) accumOver(phi *ssa.Phi) (slice ssa.Value, init ssa.Value, ok bool) {
-	if !isLoopHeaderPhi(phi) || len(phi.Edges) != 2 {
+	if !isLoopHeaderPhi(phi) {
+		return nil, nil, false
+	}
+	if len(phi.Edges) == 3 {
+		// `if acc < t { acc = t }` whose else side jumps straight back to the loop header: the header merges the
+		// initial value, the accumulator itself (kept) and t (assigned under the comparison)
+		return me.accumOverKeepOrAssign(phi)
+	}
+	if len(phi.Edges) != 2 {
 		return nil, nil, false
 	}
 	for i, e := range phi.Edges {
-		call, isCall := e.(*ssa.Call)
-		if !isCall {
-			continue
-		}
-		var args []ssa.Value
-		if b, isB := call.Call.Value.(*ssa.Builtin); isB && b.Name() == "max" {
-			args = call.Call.Args
-		} else if cal := call.Call.StaticCallee(); cal != nil && me.isMaxLike(cal) {
-			args = call.Call.Args
-		}
-		if len(args) != 2 {
-			continue
-		}
 		var other ssa.Value
-		if args[0] == ssa.Value(phi) {
-			other = args[1]
-		} else if args[1] == ssa.Value(phi) {
-			other = args[0]
+		if q, isPhi := e.(*ssa.Phi); isPhi {
+			// the hand-written maximum: if acc < t { acc = t }  (a two-edge merge of the accumulator and t under
+			// the comparison of exactly those two)
+			other = condAssignMax(phi, q)
+			if other == nil {
+				continue
+			}
 		} else {
-			continue
+			call, isCall := e.(*ssa.Call)
+			if !isCall {
+				continue
+			}
+			var args []ssa.Value
+			if b, isB := call.Call.Value.(*ssa.Builtin); isB && b.Name() == "max" {
+				args = call.Call.Args
+			} else if cal := call.Call.StaticCallee(); cal != nil && me.isMaxLike(cal) {
+				args = call.Call.Args
+			}
+			if len(args) != 2 {
+				continue
+			}
+			if args[0] == ssa.Value(phi) {
+				other = args[1]
+			} else if args[1] == ssa.Value(phi) {
+				other = args[0]
+			} else {
+				continue
+			}
 		}
 		// other = GetTime(GetClock(elem)) with elem = *IndexAddr(S, _)
 		tcall, isT := other.(*ssa.Call)
@@ -137,6 +154,138 @@ func (me *monoEngine) accumOver(phi *ssa.Phi) (slice ssa.Value, init ssa.Value, 
 		return ia.X, phi.Edges[1-i], true
 	}
 	return nil, nil, false
+}
+
+// accumOverKeepOrAssign: the three-edge form of the accumulate-max (see accumOver).
+func (me *monoEngine) accumOverKeepOrAssign(phi *ssa.Phi) (slice ssa.Value, init ssa.Value, ok bool) {
+	hdr := phi.Block()
+
+	var t ssa.Value
+	var tPred *ssa.BasicBlock
+	nself := 0
+	for i, e := range phi.Edges {
+		pred := hdr.Preds[i]
+		switch {
+		case e == ssa.Value(phi):
+			nself++
+		case !hdr.Dominates(pred):
+			init = e
+		default:
+			t, tPred = e, pred
+		}
+	}
+	if nself != 1 || init == nil || t == nil {
+		return nil, nil, false
+	}
+	// the block that assigns t is entered through the comparison of acc and t, on the side where t is larger
+	d := tPred.Idom()
+	nreal := 0
+	for _, ins := range tPred.Instrs {
+		if _, isDbg := ins.(*ssa.DebugRef); !isDbg {
+			nreal++
+		}
+	}
+	if nreal != 1 || d == nil || len(d.Instrs) == 0 { // `acc = t` leaves an empty block that jumps back
+		return nil, nil, false
+	}
+	iff, isIf := d.Instrs[len(d.Instrs)-1].(*ssa.If)
+	if !isIf {
+		return nil, nil, false
+	}
+	cmp, isCmp := iff.Cond.(*ssa.BinOp)
+	if !isCmp {
+		return nil, nil, false
+	}
+	op := cmp.Op
+	switch {
+	case cmp.X == ssa.Value(phi) && cmp.Y == t:
+	case cmp.Y == ssa.Value(phi) && cmp.X == t:
+		op = flipOp(op)
+	default:
+		return nil, nil, false
+	}
+	onTrue := d.Succs[0] == tPred
+	if !((onTrue && (op == token.LSS || op == token.LEQ)) || (!onTrue && (op == token.GEQ || op == token.GTR))) {
+		return nil, nil, false
+	}
+	tcall, isT := t.(*ssa.Call)
+	if !isT || !tcall.Call.IsInvoke() || tcall.Call.Method.Name() != "GetTime" {
+		return nil, nil, false
+	}
+	ccall, isC := tcall.Call.Value.(*ssa.Call)
+	if !isC || !ccall.Call.IsInvoke() || ccall.Call.Method.Name() != "GetClock" {
+		return nil, nil, false
+	}
+	ld, isL := ccall.Call.Value.(*ssa.UnOp)
+	if !isL || ld.Op != token.MUL {
+		return nil, nil, false
+	}
+	ia, isI := ld.X.(*ssa.IndexAddr)
+	if !isI {
+		return nil, nil, false
+	}
+	return ia.X, init, true
+}
+
+// condAssignMax: q = φ(acc, t) merges "acc kept" and "acc = t" under a comparison of acc and t that assigns t
+// exactly when t is the larger (or equal): returns t, else nil.
+func condAssignMax(acc *ssa.Phi, q *ssa.Phi) ssa.Value {
+	if len(q.Edges) != 2 {
+		return nil
+	}
+	ti := -1
+	for i, e := range q.Edges {
+		if e == ssa.Value(acc) {
+			ti = 1 - i
+		}
+	}
+	if ti < 0 {
+		return nil
+	}
+	t := q.Edges[ti]
+	d := q.Block().Idom()
+	if d == nil || len(d.Instrs) == 0 {
+		return nil
+	}
+	iff, ok := d.Instrs[len(d.Instrs)-1].(*ssa.If)
+	if !ok {
+		return nil
+	}
+	cmp, ok := iff.Cond.(*ssa.BinOp)
+	if !ok {
+		return nil
+	}
+	var accLeft bool
+	switch {
+	case cmp.X == ssa.Value(acc) && cmp.Y == t:
+		accLeft = true
+	case cmp.Y == ssa.Value(acc) && cmp.X == t:
+		accLeft = false
+	default:
+		return nil
+	}
+	// which branch of the test carries the assignment of t?
+	tPred := q.Block().Preds[ti]
+	onTrue := tPred == d.Succs[0] || (tPred != d && d.Succs[0].Dominates(tPred))
+	if tPred == d {
+		// the join is a direct successor: the edge that comes straight from the test
+		onTrue = d.Succs[0] == q.Block()
+	}
+	op := cmp.Op
+	if !accLeft { // t OP acc  ==  acc flip(OP) t
+		op = flipOp(op)
+	}
+	// op now reads acc OP t
+	assignsWhenLarger := false
+	if onTrue {
+		assignsWhenLarger = op == token.LSS || op == token.LEQ
+	} else {
+		assignsWhenLarger = op == token.GEQ || op == token.GTR
+	}
+	if !assignsWhenLarger {
+		return nil
+	}
+	return t
 }
 
 // isAccumHelper: f(slice, int) int returns an accumulate-max over its slice parameter starting from its int parameter.
